@@ -160,7 +160,7 @@ theorem print_obj_assert_unreachable {n : JStr} (h : validObj n = true) : printT
   simp [printTy, startsWithBracket_false_of_not_mem (ClassName_no_bracket hn)]
 
 /-- outside `wf` (2): …but the one in the `ArrayType::Object` arm can: that slot holds a `ClassName`, `ClassName::try_from("[I")`
-succeeds, and `ParsedFieldDescriptor(Type::Array(1, ArrayType::Object("[I"))).write()` panics.  (The correspondence
+succeeds (also after b182f7d: `[I` is an array field descriptor, hence a valid class name), and `ParsedFieldDescriptor(Type::Array(1, ArrayType::Object("[I"))).write()` panics.  (The correspondence
 run replays this: request `desc-print field (arr 1 (obj #5b.49))`, both sides answer `ok panic`.) -/
 theorem print_assert_witness :
     validClass (jstr "[I") = true ∧ printTy (.arr 1 (.obj (jstr "[I"))) = none := by decide
@@ -248,82 +248,57 @@ theorem valid_obj_not_bracket {s : JStr} (h : validObj s = true) : s.head? ≠ s
   rw [(startsWithBracket_iff s).mpr e] at this
   simp at this
 
-/-- class names **as coded**: an object class name or anything that starts with `[` -/
-theorem valid_class_as_coded (s : JStr) : validClass s = true ↔ ClassName s ∨ s.head? = some LBRACKET :=
-  validClass_iff s
-
-/-- array class names **as coded**: anything that starts with `[` -/
-theorem valid_arr_as_coded (s : JStr) : validArr s = true ↔ s.head? = some LBRACKET := validArr_iff s
-
-/-- every array field descriptor is accepted as `ArrClassName` and as `ClassName` (the half of the documented
-meaning that holds everywhere) -/
-theorem arr_name_complete {s : JStr} (h : ArrayDescriptor s) : validArr s = true ∧ validClass s = true := by
-  have := ArrayDescriptor_head h
-  exact ⟨(validArr_iff s).mpr this, (validClass_iff s).mpr (Or.inr this)⟩
-
-/-- `ArrClassName` against its **documentation** ("Array class names always start with `[` followed by a field
-descriptor" / error text "must be an array field descriptor").  PARTIAL: proved on `ArrNameDomain` = all strings except
-those that start with `[` without being an array field descriptor; there the code says "valid" for every string
-(`arr_name_gap`, `arr_name_bracket_only_witness`). -/
-theorem valid_arr_doc_partial (s : JStr) (h : ArrNameDomain s) : validArr s = true ↔ ArrayDescriptor s :=
-  ⟨fun hv => h ((validArr_iff s).mp hv), fun hd => (arr_name_complete hd).1⟩
-
-/-- `ClassName` against its documentation (object class name or array class name), same domain.  PARTIAL. -/
-theorem valid_class_doc_partial (s : JStr) (h : ArrNameDomain s) : validClass s = true ↔ AnyClassName s := by
-  rw [validClass_iff]
-  constructor
-  · intro hv
-    cases hv with
-    | inl hc => exact Or.inl hc
-    | inr hb => exact Or.inr (h hb)
-  · intro hv
-    cases hv with
-    | inl hc => exact Or.inl hc
-    | inr ha => exact Or.inr (ArrayDescriptor_head ha)
-
-/-- the domain is decidable: "does not start with `[`, or the field-descriptor parser accepts it" (this is what the
-oracles compute; the harness computes it with its own recogniser) -/
-theorem arr_name_domain_iff (s : JStr) :
-    ArrNameDomain s ↔ (startsWithBracket s = true → (parseField s).isSome = true) := by
-  unfold ArrNameDomain
-  rw [startsWithBracket_iff]
-  constructor
-  · intro h hb; exact ((ArrayDescriptor_iff_parse s).mp (h hb)).2
-  · intro h hb; exact (ArrayDescriptor_iff_parse s).mpr ⟨hb, h hb⟩
-
-/-- the gap, exactly: the strings accepted as array class names against the documentation are all the strings that
-start with `[` and are not field descriptors (none is rejected wrongly) -/
-theorem arr_name_gap (s : JStr) :
-    (validArr s = true ∧ ¬ ArrayDescriptor s) ↔ (s.head? = some LBRACKET ∧ parseField s = none) := by
+/-- array class names **as coded** (since b182f7d): starts with `[` and `FieldDescriptorSlice::parse` accepts it -/
+theorem valid_arr_as_coded (s : JStr) :
+    validArr s = true ↔ s.head? = some LBRACKET ∧ (parseField s).isSome = true := by
   rw [validArr_iff, ArrayDescriptor_iff_parse]
-  constructor
-  · intro ⟨hb, hn⟩
-    refine ⟨hb, ?_⟩
-    cases hp : parseField s with
-    | none => rfl
-    | some t => exact absurd ⟨hb, by rw [hp]; rfl⟩ hn
-  · intro ⟨hb, hp⟩
-    exact ⟨hb, fun ⟨_, hq⟩ => by rw [hp] at hq; cases hq⟩
 
-example : ArrNameDomain (jstr "[[La/b;") ∧ ArrNameDomain (jstr "a/b") ∧ ArrNameDomain [] := by
-  refine ⟨(arr_name_domain_iff _).mpr (by decide), (arr_name_domain_iff _).mpr (by decide),
-    (arr_name_domain_iff _).mpr (by decide)⟩
+/-- `ArrClassName` = its **documentation** ("Array class names always start with `[` followed by a field descriptor" /
+error text "must be an array field descriptor"): exactly the JVMS array field descriptors (1 to 255 dimensions, then a
+base type or `L ClassName ;`).  Full strength, every string. -/
+theorem valid_arr_doc (s : JStr) : validArr s = true ↔ ArrayDescriptor s := validArr_iff s
 
-/-- WITNESS for the two `_partial` theorems: `[` alone and `[x` are accepted as `ArrClassName` and as `ClassName`
-although they are neither array field descriptors nor object class names (the repo's own `#[ignore]`d tests
-`invalid_arr_class_names` / `invalid_class_names` list `[` and `[V` as to-be-rejected) -/
-theorem arr_name_bracket_only_witness :
-    validArr (jstr "[") = true ∧ validClass (jstr "[") = true ∧ ¬ ArrayDescriptor (jstr "[") ∧
-    ¬ AnyClassName (jstr "[") ∧ validArr (jstr "[x") = true ∧ ¬ ArrayDescriptor (jstr "[x") := by
-  have h1 : ¬ ArrayDescriptor (jstr "[") := fun h =>
-    absurd ((ArrayDescriptor_iff_parse _).mp h).2 (by decide)
-  have h2 : ¬ ArrayDescriptor (jstr "[x") := fun h =>
-    absurd ((ArrayDescriptor_iff_parse _).mp h).2 (by decide)
-  refine ⟨by decide, by decide, h1, ?_, by decide, h2⟩
-  intro h
-  cases h with
-  | inl hc => exact absurd ((validObj_iff _).mpr hc) (by decide)
-  | inr ha => exact h1 ha
+/-- `ClassName` = its documentation: an object class name or an array class name.  Full strength, every string. -/
+theorem valid_class_doc (s : JStr) : validClass s = true ↔ AnyClassName s := validClass_iff s
+
+/-- every array field descriptor is accepted as `ArrClassName` and as `ClassName` -/
+theorem arr_name_complete {s : JStr} (h : ArrayDescriptor s) : validArr s = true ∧ validClass s = true :=
+  ⟨(validArr_iff s).mpr h, (validClass_iff s).mpr (Or.inr h)⟩
+
+/-- the former gap (before b182f7d every `[`-prefixed string was accepted) is empty: nothing outside the documented
+meaning is accepted by either predicate, and the three name types partition as documented -/
+theorem arr_name_gap (s : JStr) :
+    (validArr s = true → ArrayDescriptor s) ∧ (validClass s = true → AnyClassName s) ∧
+    (validClass s = true ↔ validObj s = true ∨ validArr s = true) ∧ ¬ (validObj s = true ∧ validArr s = true) := by
+  refine ⟨(validArr_iff s).mp, (validClass_iff s).mp, ?_, ?_⟩
+  · rw [validClass_iff, validObj_iff, validArr_iff]
+  · intro ⟨ho, ha⟩
+    have h1 := startsWithBracket_false_of_not_mem (ClassName_no_bracket ((validObj_iff s).mp ho))
+    have h2 := (startsWithBracket_iff s).mpr (ArrayDescriptor_head ((validArr_iff s).mp ha))
+    rw [h1] at h2; cases h2
+
+example : validArr (jstr "[[La/b;") = true ∧ validClass (jstr "[[La/b;") = true ∧ validClass (jstr "a/b") = true := by
+  decide
+
+/-- REGRESSION (repaired by b182f7d, former `arr_name_bracket_only_witness`): `[`, `[x`, `[V`, `[L;` are rejected as
+`ArrClassName` and as `ClassName` (the repo's `#[ignore]`d tests `invalid_arr_class_names` / `invalid_class_names`
+list `[` and `[V`) -/
+theorem arr_name_bracket_only_rejected :
+    validArr (jstr "[") = false ∧ validClass (jstr "[") = false ∧ validArr (jstr "[x") = false ∧
+    validClass (jstr "[x") = false ∧ validArr (jstr "[V") = false ∧ validClass (jstr "[V") = false ∧
+    validArr (jstr "[L;") = false ∧ validArr (jstr "[I") = true := by decide
+
+/-- REGRESSION: more than 255 dimensions are not an array class name, whatever follows -/
+theorem arr_name_over_255_rejected (n : Nat) (h : 256 ≤ n) (s : JStr) :
+    validArr (List.replicate n LBRACKET ++ s) = false ∧ validClass (List.replicate n LBRACKET ++ s) = false := by
+  have hp := (dims_cap_reject n h s).1
+  have ha : validArr (List.replicate n LBRACKET ++ s) = false := by simp [validArr, hp]
+  refine ⟨ha, ?_⟩
+  cases n with
+  | zero => omega
+  | succ n =>
+    rw [List.replicate_succ, List.cons_append] at ha ⊢
+    simp [validClass, startsWithBracket, ha]
 
 /-- the descriptor *newtypes* (`FieldDescriptor`, `MethodDescriptor`, `ReturnDescriptor`) do not validate at all:
 their `check_valid` is `Ok(())` with a `TODO: parse the desc and fail if invalid`, so `FieldDescriptor::is_valid("foo")`
@@ -339,16 +314,22 @@ theorem descriptor_newtype_unchecked_witness :
 theorem dimension_spec {s : JStr} {d : Nat} {b : Base} (h : FieldTy s (.arr d b)) : dimension s = some d :=
   dimension_of_FieldTy h
 
-/-- a consequence of the lax array-name check: 256 brackets are a valid `ArrClassName`, and `dimension()` (count
-`as u8`, then `assert_ne!(dimension, 0)`) panics on it -/
-theorem dimension_256_witness :
-    validArr (List.replicate 256 LBRACKET) = true ∧ dimension (List.replicate 256 LBRACKET) = none := by
-  refine ⟨rfl, ?_⟩
-  have h := countBrackets_replicate 256 [] (by simp)
-  rw [List.append_nil] at h
-  unfold dimension
-  rw [h]
-  rfl
+/-- REGRESSION (former `dimension_256_witness`: 256 brackets were a valid `ArrClassName` on which `dimension()`
+panicked).  For every valid `ArrClassName` the count fits the `u8` (`as u8` does not truncate) and is not 0 (the
+`assert_ne!` cannot fire): `dimension()` is total on the type and returns the number of leading `[`, 1..255. -/
+theorem dimension_total {s : JStr} (h : validArr s = true) :
+    ∃ d, dimension s = some d ∧ 1 ≤ d ∧ d ≤ 255 ∧ d = countBrackets s := by
+  obtain ⟨d, b, hf⟩ := (validArr_iff s).mp h
+  obtain ⟨h1, h2, p, hp, hs⟩ := flat_of_FieldTy hf
+  refine ⟨d, dimension_of_FieldTy hf, h1, h2, ?_⟩
+  subst hs
+  obtain ⟨c, rest, hc, hcb, _⟩ := BaseTy_head hp
+  rw [countBrackets_replicate d p (by rw [hc]; simpa using hcb)]
+
+/-- the model's `none` (= panic) answer of `dimension` is unreachable through a valid `ArrClassName` -/
+theorem dimension_no_panic (s : JStr) (h : validArr s = true) : dimension s ≠ none := by
+  obtain ⟨d, hd, _⟩ := dimension_total h
+  rw [hd]; exact fun e => by cases e
 
 /-- `FieldDescriptor::from_class` -/
 theorem from_class_spec (n : JStr) :
@@ -359,7 +340,7 @@ theorem from_class_spec (n : JStr) :
     simp only [fromClass, this, Bool.false_eq_true, if_false]
     exact FieldTy.obj h
   · intro h
-    have := (validArr_iff n).mp (arr_name_complete h).1
+    have := ArrayDescriptor_head h
     simp [fromClass, (startsWithBracket_iff n).mpr this]
 
 /-- `ObjClassNameSlice::get_simple_name`: "the part after the last `/`", the whole name if there is none -/
